@@ -48,7 +48,11 @@ def process_resource(fields, rows):
                     if row.get(c) is not None
                 ]
                 with_ = field.get('with', field.get('with_', ''))
-                new_col = AGGREGATORS[op].func(values, with_, row)
+                if not values and op in ('avg', 'max', 'min', 'multiply'):
+                    # nothing to aggregate (all sources are null): the result is null
+                    new_col = None
+                else:
+                    new_col = AGGREGATORS[op].func(values, with_, row)
                 row[target] = new_col
             elif callable(op):
                 row[target] = op(row)
